@@ -147,6 +147,15 @@ func (e *Exec) hmacDigest(h *hmacObj) []*Term {
 		h.digest = out
 		return out
 	}
+	if e.opaque["hmacfresh"] == true {
+		// digest as fresh variables (no congruence between calls): for harnesses that only
+		// need "some digest"
+		for i := range out {
+			out[i] = e.freshVar(fmt.Sprintf("hmac%d_%d", h.seq, i), 8)
+		}
+		h.digest = out
+		return out
+	}
 	args := append(append([]*Term{}, h.key...), h.msg...)
 	for i := range out {
 		name := fmt.Sprintf("HMAC_%s_k%d_m%d_b%d", h.alg, len(h.key), len(h.msg), i)
@@ -802,9 +811,13 @@ func inRandRead(e *Exec, args []Value, site *ssa.CallCommon) Value {
 			return &TupleV{E: []Value{e.c64(0), &IfaceV{typ: nil, v: &OpaqueV{kind: "fmterror", data: rec}}}}
 		}
 	}
+	var stream []*Term
 	for i := 0; i < n; i++ {
-		e.arrSetTrail(s.arr, e.tb.Add(s.off, e.c64(int64(i))), e.freshVar(fmt.Sprintf("rand_%d", i), 8))
+		v := e.freshVar(fmt.Sprintf("rand_%d", i), 8)
+		stream = append(stream, v)
+		e.arrSetTrail(s.arr, e.tb.Add(s.off, e.c64(int64(i))), v)
 	}
+	e.randStreams = append(e.randStreams, stream)
 	return &TupleV{E: []Value{e.c64(int64(n)), &IfaceV{}}}
 }
 
